@@ -7,12 +7,19 @@ package gmtls
 
 import (
 	"bytes"
+	crand "crypto/rand"
+	"crypto/x509/pkix"
 	"encoding/json"
 	"fmt"
+	"math/big"
 	"math/rand"
 	"os"
 	"strconv"
 	"testing"
+	"time"
+
+	"github.com/tjfoc/gmsm/sm2"
+	"github.com/tjfoc/gmsm/x509"
 )
 
 func TestGvcBoundedTicket(t *testing.T) {
@@ -99,8 +106,102 @@ func TestGvcBoundedTicket(t *testing.T) {
 			}
 		}()
 	}
+	// a history with a ticket-key rotation: a ticket issued under the old key (still configured) is resumed, and the ticket
+	// the server re-issues under the new key must describe the same session - including the client's certificate chain
+	func() {
+		id := "rotation"
+		defer func() {
+			if r := recover(); r != nil {
+				fail(id + ":panic")
+			}
+		}()
+		key, err := sm2.GenerateKey(crand.Reader)
+		if err != nil {
+			return
+		}
+		tm := &x509.Certificate{SerialNumber: big.NewInt(3), Subject: pkix.Name{CommonName: "ticket-client"}, NotBefore: time.Now().Add(-time.Hour), NotAfter: time.Now().Add(time.Hour), KeyUsage: x509.KeyUsageDigitalSignature}
+		der, err := x509.CreateCertificate(tm, tm, &key.PublicKey, key)
+		if err != nil {
+			return
+		}
+		var k1, k2 [32]byte
+		k1[0], k2[0] = 1, 2
+		for _, gm := range []bool{false, true} {
+			cases++
+			tag := fmt.Sprintf("%s:gm=%v", id, gm)
+			vers, suite := uint16(VersionTLS12), TLS_RSA_WITH_AES_128_GCM_SHA256
+			if gm {
+				vers, suite = VersionGMSSL, GMTLS_ECC_SM4_CBC_SM3
+			}
+			serverCfg := &Config{ClientAuth: RequestClientCert, CipherSuites: []uint16{suite}}
+			if gm {
+				serverCfg.GMSupport = NewGMSupport()
+			}
+			serverCfg.SetSessionTicketKeys([][32]byte{k2, k1})
+			original := &sessionState{vers: vers, cipherSuite: suite, masterSecret: bytes.Repeat([]byte{0x42}, 48), certificates: [][]byte{der}}
+			oldCfg := &Config{}
+			oldCfg.SetSessionTicketKeys([][32]byte{k1})
+			ticket, err := (&Conn{config: oldCfg}).encryptTicket(original)
+			if err != nil {
+				fail(tag + ":encrypt")
+				continue
+			}
+			c := &Conn{config: serverCfg, vers: vers, haveVers: true, buffering: true}
+			hello := &clientHelloMsg{vers: vers, cipherSuites: []uint16{suite}, sessionTicket: ticket, ticketSupported: true}
+			var refreshedTicket func() error
+			if gm {
+				hs := &serverHandshakeStateGM{c: c, clientHello: hello, hello: new(serverHelloMsg)}
+				if !hs.checkForResumption() || !hs.sessionState.usedOldKey {
+					fail(tag + ":not resumed under the old key")
+					continue
+				}
+				hs.hello.ticketSupported = hs.sessionState.usedOldKey
+				// the transcript hash the resume path builds for itself must accept input (it crashed for GMSSL)
+				fh := newFinishedHash(c.vers, hs.suite)
+				fh.Write([]byte("client hello"))
+				hs.finishedHash = newFinishedHashGM(hs.suite)
+				if _, err := hs.processCertsFromClient(hs.sessionState.certificates); err != nil {
+					fail(tag + ":processCertsFromClient")
+					continue
+				}
+				hs.masterSecret = hs.sessionState.masterSecret
+				refreshedTicket = hs.sendSessionTicket
+			} else {
+				hs := &serverHandshakeState{c: c, clientHello: hello, hello: new(serverHelloMsg), rsaDecryptOk: true, rsaSignOk: true}
+				if !hs.checkForResumption() || !hs.sessionState.usedOldKey {
+					fail(tag + ":not resumed under the old key")
+					continue
+				}
+				hs.hello.ticketSupported = hs.sessionState.usedOldKey
+				hs.finishedHash = newFinishedHash(c.vers, hs.suite)
+				if _, err := hs.processCertsFromClient(hs.sessionState.certificates); err != nil {
+					fail(tag + ":processCertsFromClient")
+					continue
+				}
+				hs.masterSecret = hs.sessionState.masterSecret
+				refreshedTicket = hs.sendSessionTicket
+			}
+			if err := refreshedTicket(); err != nil || len(c.sendBuf) < recordHeaderLen {
+				fail(tag + ":no refreshed ticket")
+				continue
+			}
+			m := new(newSessionTicketMsg)
+			if !m.unmarshal(c.sendBuf[recordHeaderLen:]) {
+				fail(tag + ":ticket message")
+				continue
+			}
+			refreshed, ok := c.decryptTicket(append([]byte{}, m.ticket...))
+			if !ok || refreshed.usedOldKey {
+				fail(tag + ":refreshed ticket not under the new key")
+				continue
+			}
+			if !same(refreshed, original) {
+				fail(fmt.Sprintf("%s:refreshed ticket differs (%d certificates, original %d)", tag, len(refreshed.certificates), len(original.certificates)))
+			}
+		}
+	}()
 	out, _ := json.Marshal(map[string]interface{}{"cases": cases, "failures": len(failing), "failing": failing,
-		"bound": fmt.Sprintf("%d random session states (0..59-byte master secrets, 0..3 certificates of 0..299 bytes): marshal/unmarshal, encryptTicket/decryptTicket, one random bit flip, foreign keys, truncation, tickets disabled (seed %d)", rounds, seed)})
+		"bound": fmt.Sprintf("%d random session states (0..59-byte master secrets, 0..3 certificates of 0..299 bytes): marshal/unmarshal, encryptTicket/decryptTicket, one random bit flip, foreign keys, truncation, tickets disabled; one key-rotation history per mode (TLS, GMSSL): resumption from a ticket under the old key, the re-issued ticket describes the same session incl. the client chain (seed %d)", rounds, seed)})
 	fmt.Println("GVCBOUNDED " + string(out))
 	if len(failing) > 0 {
 		t.Fail()
